@@ -91,6 +91,14 @@ CHECKS["C03"] = (
     "DESIGN.md section 2 / C03",
 )
 
+CHECKS["C05"] = (
+    "proptest-generated headers of macros (typed C expression grammar made UB-free by a C-typed evaluator), enums and const variables x option sets; differential of every emitted constant between a clang-compiled C probe and a rustc-compiled Rust probe",
+    "exploration",
+    "The generator draws macro bodies from a typed expression grammar (all literal radixes and suffixes, unary and binary operators, ?:, casts, sizeof, character constants, references to earlier macros), float expressions, character and string literals with escapes/concatenation, non-constant macros, enums in five declaration forms with boundary values, and const variables of every scalar type, in C and C++. The C value of every macro, enumerator and variable is printed by a clang-compiled probe; the emitted constants are printed (value as i128 / f64 bits / bytes, size and signedness of the carrier type) by a rustc-compiled probe that includes the bindings for two option sets per header. Emitted constants must agree; omission of a macro is allowed; enumerators must all be present and the enum carrier must have C's size and signedness under all seven enum styles.",
+    "host target only; character constants compared modulo 256; stated float tolerances; classes behind the four known findings (untyped 64-bit macro arithmetic, redefinition after #undef, unsigned 64-bit values through the clang fallback, arithmetic on f/L-suffixed float literals) are decided from the input alone, not compared, and counted.",
+    "DESIGN.md section 2 / C05",
+)
+
 CHECKS["C06"] = (
     "proptest-generated C type graphs and C++ template graphs x targets x assertion forms; completeness predicate over the syn inventory + differential of every asserted number against a `clang --target=T` constant table",
     "exploration",
